@@ -7,7 +7,9 @@ EXTENDS Writer, Json
 \* v6: the sources of v1 plus an item typeshare must reject (a u64 field) in the crate that is written second: the run fails
 \* v7: the sources of v3 under another CONFIGURATION (typeshare.toml: decorators, constraints of the unit helper type): a
 \* version is everything the output depends on, and the helper file depends on the configuration too
-MCVersions == {"v1", "v2", "v3", "v4", "v5", "v6", "v7"}
+\* v8: a workspace with an ambiguous import (several crates define the name): same abstract behaviour as any other version -
+\* the point is made on the real binary, whose choice must be the same in every process
+MCVersions == {"v1", "v2", "v3", "v4", "v5", "v6", "v7", "v8"}
 MCFails == [v \in MCVersions |-> v = "v6"]
 MCGen == [v \in MCVersions |->
     CASE v = "v1" -> [a |-> "A1", b |-> "B1"]
@@ -16,6 +18,7 @@ MCGen == [v \in MCVersions |->
       [] v = "v4" -> [a |-> "A1", b |-> ""]
       [] v = "v5" -> [a |-> "A1cr", b |-> "B1"]
       [] v = "v6" -> [a |-> "A1", b |-> "B6"]
-      [] v = "v7" -> [a |-> "A1c", b |-> "B3c", codable |-> "CVc"]]
+      [] v = "v7" -> [a |-> "A1c", b |-> "B3c", codable |-> "CVc"]
+      [] v = "v8" -> [a |-> "A8", b |-> "B8"]]
 EmitHistory == PrintT(<<"REPLAY", ToJson([history |-> hist])>>)
 =============================================================================
